@@ -280,12 +280,36 @@ pub fn gen_case_pub(seed: u64, idx: u64, corpus: &Corpus, nfiles: usize) -> Case
     gen_case(seed, idx, corpus, &p)
 }
 
+pub const DEEP_FORMS: usize = 7;
+pub const DEEP_DEPTHS: [usize; 2] = [3000, 20000];
+pub fn deep_body(form: usize, depth: usize) -> String {
+    match form {
+        0 => format!("T ::= {}INTEGER", "SEQUENCE OF ".repeat(depth)),
+        1 => format!("T ::= INTEGER {}0..5{}", "(".repeat(depth), ")".repeat(depth)),
+        2 => format!("T ::= {}INTEGER{}", "SEQUENCE { a ".repeat(depth), " }".repeat(depth)),
+        3 => format!("v T ::= {}1{}", "{ ".repeat(depth), " }".repeat(depth)),
+        4 => format!("T ::= {}INTEGER", "[1] ".repeat(depth)),
+        5 => format!("T ::= INTEGER ({}1{})", "ALL EXCEPT (".repeat(depth.min(500)), ")".repeat(depth.min(500))),
+        // a syntax error at moderate depth (the lexer backtracks ~1.75x per level: depth 14 stays < 1 s)
+        _ => format!("T ::= {}a INTEGER{}", "SEQUENCE { a ".repeat(1 + depth % 14), " }".repeat(1 + depth % 14)),
+    }
+}
+pub fn n_fixed_deep() -> usize {
+    DEEP_FORMS * DEEP_DEPTHS.len()
+}
+
 pub fn gen_case(seed: u64, idx: u64, corpus: &Corpus, prefixes: &[(usize, usize)]) -> Case {
     // the exhaustive prefix space comes first
     if (idx as usize) < prefixes.len() {
         let (fi, cut) = prefixes[idx as usize];
         let (name, s) = &corpus.files[fi];
         return Case { cat: "prefix-exhaustive", input: s[..cut].to_string(), origin: format!("{name}[..{cut}]") };
+    }
+    let k = idx as usize - prefixes.len();
+    if k < n_fixed_deep() {
+        // fixed, seed-independent: every nesting form at two extreme depths (stack exhaustion is decided here)
+        let (form, depth) = (k % DEEP_FORMS, DEEP_DEPTHS[k / DEEP_FORMS]);
+        return Case { cat: "deep-nesting", input: format!("M DEFINITIONS ::= BEGIN\n{}\nEND\n", deep_body(form, depth)), origin: format!("form={form} depth={depth}") };
     }
     let mut rng = Rng::for_case(seed, 8, idx);
     match rng.below(20) {
@@ -359,19 +383,10 @@ pub fn gen_case(seed: u64, idx: u64, corpus: &Corpus, prefixes: &[(usize, usize)
             Case { cat: "open-at-eof", input: s, origin: String::new() }
         }
         18 => {
-            // deep nesting
-            let depth = if rng.chance(1, 8) { 2000 + rng.below(8000) } else { 1 + rng.below(300) };
-            let body = match rng.below(7) {
-                0 => format!("T ::= {}INTEGER", "SEQUENCE OF ".repeat(depth)),
-                1 => format!("T ::= INTEGER {}0..5{}", "(".repeat(depth), ")".repeat(depth)),
-                2 => format!("T ::= {}INTEGER{}", "SEQUENCE { a ".repeat(depth), " }".repeat(depth)),
-                // a syntax error at moderate depth (the lexer backtracks ~1.75x per level: depth 14 stays < 1 s)
-                6 => format!("T ::= {}a INTEGER{}", "SEQUENCE { a ".repeat(1 + depth % 14), " }".repeat(1 + depth % 14)),
-                3 => format!("v T ::= {}1{}", "{ ".repeat(depth), " }".repeat(depth)),
-                4 => format!("T ::= {}INTEGER", "[1] ".repeat(depth)),
-                _ => format!("T ::= INTEGER ({}1)", "ALL EXCEPT (".repeat(depth.min(500)) + &")".repeat(depth.min(500))),
-            };
-            Case { cat: "deep-nesting", input: format!("{}{}\nEND\n", headers(&mut rng), body), origin: format!("depth={depth}") }
+            // moderately deep nesting (the extreme depths are the fixed `deep-nesting` cases below the random range)
+            let depth = 1 + rng.below(200);
+            let form = rng.below(DEEP_FORMS);
+            Case { cat: "nesting", input: format!("{}{}\nEND\n", headers(&mut rng), deep_body(form, depth)), origin: format!("form={form} depth={depth}") }
         }
         _ => {
             let (name, s) = small_file(&mut rng, corpus, 60_000).clone();
@@ -536,10 +551,7 @@ fn abort_key(case: &Case, tag: u64) -> String {
             body.sort();
             one_line(&body.join(" ; "), 160)
         }
-        "deep-nesting" => {
-            let body = case.input.lines().nth(1).unwrap_or("");
-            format!("deep-nesting:{}", one_line(body, 24))
-        }
+        "deep-nesting" => format!("deep-nesting:{}", case.origin),
         other => other.to_string(),
     }
 }
@@ -684,7 +696,7 @@ pub fn run(ctx: &Ctx) -> Report {
     let nfiles = ctx.pick(50usize, 120);
     let prefixes = prefix_space(&corpus, nfiles);
     let nrand = std::env::var("VERIF_C08_N").ok().and_then(|s| s.parse().ok()).unwrap_or(ctx.pick(60_000u64, 2_000_000));
-    let total = prefixes.len() as u64 + nrand;
+    let total = prefixes.len() as u64 + n_fixed_deep() as u64 + nrand;
     rep.extra.insert("exhaustive_prefix_cases".into(), json!(prefixes.len()));
     rep.extra.insert("random_cases".into(), json!(nrand));
     let shard = ctx.pick(2_000u64, 10_000);
